@@ -75,7 +75,8 @@ Mk(rpc, hv, url, body, rv, h, hook) ==
 (* C02: verb x body shape x content type x URL value classes               *)
 (***************************************************************************)
 PCls  == {"good", "pct", "malformed", "oor"}
-QCls  == {"good", "absent", "malformed", "oor", "repeated", "zero"}
+\* (pct: a value with reserved characters, among them the comma and the semicolon, percent-encoded)
+QCls  == {"good", "absent", "malformed", "oor", "repeated", "zero", "pct"}
 RQCls == {"good", "missing_required", "malformed"}
 C02Requests ==
   { Mk(Rpc(v, "int32", <<>>), <<>>, Url(a, b, c), Body(sh, ct), <<>>, OkHandler, NoHook) :
